@@ -286,3 +286,44 @@ contract("src/alignment_info.py:AlignmentInfo.add_polya_info",
                          "run_at(self.read_blocks, old(self.read_blocks), max(0, polyt_exon_count))",
                          "run_at(self.cigar_blocks, old(self.cigar_blocks), max(0, polyt_exon_count))"]},
          gen=lambda rng, n: _gen_add_polya(rng, n))
+
+
+# ---- hard clipping: H operations carry no bases of SEQ, so they must not change where a polyA tail / polyT head is found ----------------------
+def _hard_clip_case(seed):
+    """the alignments of C11.polya_mirror (A-rich end, tail inside and / or beyond the aligned part; and their mirror images with a polyT
+    head), each compared with the same record spelled with an H operation at the tail side, at the far side and at both sides"""
+    from contracts import c_equivariance as CE
+    PF = native.repo_import("src/polya_finder.py").PolyAFinder
+    a, m, L = CE._polya_mirror_pair(seed)
+    f = PF()
+    out = []
+    for rec, fns in ((a, ("find_polya_external", "find_polya_internal")), (m, ("find_polyt_external", "find_polyt_internal"))):
+        base = {fn: getattr(f, fn)(rec) for fn in fns}
+        for name, cig in (("H at the end", list(rec.cigartuples) + [(5, 7)]), ("H at the start", [(5, 7)] + list(rec.cigartuples)),
+                          ("H at both ends", [(5, 4)] + list(rec.cigartuples) + [(5, 9)])):
+            r2 = rec._replace(cigartuples=cig)
+            for fn in fns:
+                got = getattr(f, fn)(r2)
+                if got != base[fn]:
+                    out.append("%s: %s gives %s for CIGAR %s and %s with %s" % (fn, fn, base[fn], rec.cigartuples, got, name))
+    return out
+
+
+def replay_hard_clip(d):
+    p = _hard_clip_case(d["inputs"]["seed"])
+    return (not p), "seed %s: %s" % (d["inputs"]["seed"], p[:3] or "hard clips change nothing")
+
+
+@bounded("C16.hard_clip_invariance", ["C16"], note="PolyAFinder.find_polya_* / find_polyt_* (external and internal search, incl. the reference walk "
+         "move_ref_coord_alogn_alignment) on alignments with A-rich ends: adding H operations (which carry no bases of SEQ) at either or both "
+         "ends of the CIGAR changes no detected position")
+def c16_hard_clip(tier, rng):
+    n = 1500 if tier == "quick" else 40000
+    base = rng.randrange(10 ** 9)
+    for k in range(n):
+        p = _hard_clip_case(base + k)
+        if p:
+            return {"cases": k + 1, "bound": "%d alignments" % n, "violations": [{
+                "obligation": "C16.hard_clip_invariance", "inputs": {"seed": base + k}, "observed": p[:3],
+                "required": "the same positions with and without H operations", "replay_call": "contracts.c_cigar:replay_hard_clip"}]}
+    return {"cases": n, "bound": "%d random alignments x 3 spellings x 4 searches" % n, "violations": [], "samples": [{"seed": base}]}
